@@ -225,4 +225,18 @@ CHECKS = {
                         "the strict 'before the call began' reading is refuted for the faithful model (c08_descriptor_strict_refuted) "
                         "and is known finding P2; the set is proved exact relative to the snapshot (c08_descriptor_exact_at_snapshot)"],
     },
+    "C18": {
+        "module": "p_c18",
+        "extra_props": ["Props/Comb_F.v"],
+        "gen_lemmas": [],
+        "rule": "seeded scenarios on real stacks: depth 1-4 over the seven layer kinds, base sync or the real ThreadPoolExecutor; each of the "
+                "nine user-code call sites (callable, map fn, error fn, poll fn, cancel fn, policy should_retry / sleep_time, throttle count "
+                "callable, done-callback) raises at its first / second / third / every call with probability 0.4 each; 1-4 submissions, an "
+                "optional cancel(); x {random, sticky, PCT} schedules; monitor: every future ends with its own callable's outcome or the "
+                "fault that belongs to it, no internal thread died, no library-internal exception (InvalidStateError, AssertionError ...) "
+                "escaped from a Future method or into a worker thread, and a fresh fault-free submission afterwards is served; "
+                "non-trivial = at least one fault fired and a preemption occurred",
+        "assumptions": ["PARTIAL: per-component confinement of faults is proved (Props/C18.v, Props/Comb_F.v); the cross-layer statement and "
+                        "the liveness probe are decided by the monitor on explored schedules"],
+    },
 }
